@@ -9,6 +9,7 @@ mod ops_closest;
 mod ops_determinism;
 mod ops_distance;
 mod ops_extra;
+mod ops_extra2;
 mod ops_hull;
 mod ops_kernel;
 mod ops_linemeasure;
@@ -105,6 +106,9 @@ fn dispatch_case(cx: &mut Ctx, n: u64, case: &Value) {
         "sweep" => ops_sweep::sweep_case(cx, n, case),
         "extra_pair" => ops_extra::pair_case(cx, n, case),
         "extra_seq" => ops_extra::seq_case(cx, n, case),
+        "segmentize" => ops_extra2::segmentize_case(cx, n, case),
+        "chull" => ops_extra2::chull_case(cx, n, case),
+        "xtrack" => ops_extra2::xtrack_case(cx, n, case),
         "valid" => ops_valid::valid_case(cx, n, case),
         "linemeasure" => ops_linemeasure::linemeasure_case(cx, n, case),
         "linemeasure_general" => ops_linemeasure::linemeasure_general_case(cx, n, case),
